@@ -2,11 +2,16 @@
 //! typed query helpers and the `OBS` / `QRY` printers.
 use super::cfg::*;
 use cosmwasm_std::{
-    Addr, BankMsg, BlockInfo, Coin, CosmosMsg, Empty, Timestamp, Uint128,
+    Addr, Api, BankMsg, BankQuery, Binary, BlockInfo, Coin, CosmosMsg, CustomQuery, Deps, DepsMut, Empty, Env,
+    MessageInfo, Querier, Reply, Response, Storage, Timestamp, Uint128,
 };
 use cosmwasm_storage::to_length_prefixed;
 use cw20::{AllowanceResponse, BalanceResponse, Cw20Coin, Cw20ExecuteMsg, Cw20QueryMsg};
-use cw_multi_test::{App, AppResponse, Contract, ContractWrapper, Executor};
+use cw_multi_test::{
+    App, AppBuilder, AppResponse, Bank, BankKeeper, BankSudo, Contract, ContractWrapper, CosmosRouter, Executor, Module,
+};
+use schemars::JsonSchema;
+use std::sync::{Arc, Mutex};
 use margined_common::asset::AssetInfo;
 use margined_common::integer::Integer;
 use margined_perp::margined_engine as eng;
@@ -18,6 +23,111 @@ use serde::de::DeserializeOwned;
 use serde::{Deserialize, Serialize};
 use std::collections::HashMap;
 use std::panic::{catch_unwind, AssertUnwindSafe};
+
+/// Fault injection control shared by all wrapped contracts and the bank module of one World.
+/// Every `execute` that reaches a wrapped contract (or a bank send issued by a contract) takes the
+/// next index; the call whose index equals `armed` fails with "injected fault".
+#[derive(Default, Debug)]
+pub struct FaultCtl {
+    pub armed: Option<u64>,
+    pub counter: u64,
+    pub fired: bool,
+}
+impl FaultCtl {
+    fn hit(&mut self) -> bool {
+        let i = self.counter;
+        self.counter += 1;
+        if self.armed == Some(i) {
+            self.fired = true;
+            true
+        } else {
+            false
+        }
+    }
+}
+pub type Ctl = Arc<Mutex<FaultCtl>>;
+
+/// forwards everything to the wrapped contract; `execute` first consults the FaultCtl
+pub struct FaultWrap {
+    inner: Box<dyn Contract<Empty>>,
+    ctl: Ctl,
+}
+impl Contract<Empty> for FaultWrap {
+    fn execute(&self, deps: DepsMut, env: Env, info: MessageInfo, msg: Vec<u8>) -> anyhow::Result<Response> {
+        if self.ctl.lock().unwrap().hit() {
+            anyhow::bail!("injected fault");
+        }
+        self.inner.execute(deps, env, info, msg)
+    }
+    fn instantiate(&self, deps: DepsMut, env: Env, info: MessageInfo, msg: Vec<u8>) -> anyhow::Result<Response> {
+        self.inner.instantiate(deps, env, info, msg)
+    }
+    fn query(&self, deps: Deps, env: Env, msg: Vec<u8>) -> anyhow::Result<Binary> {
+        self.inner.query(deps, env, msg)
+    }
+    fn sudo(&self, deps: DepsMut, env: Env, msg: Vec<u8>) -> anyhow::Result<Response> {
+        self.inner.sudo(deps, env, msg)
+    }
+    fn reply(&self, deps: DepsMut, env: Env, msg: Reply) -> anyhow::Result<Response> {
+        self.inner.reply(deps, env, msg)
+    }
+    fn migrate(&self, deps: DepsMut, env: Env, msg: Vec<u8>) -> anyhow::Result<Response> {
+        self.inner.migrate(deps, env, msg)
+    }
+}
+fn wrap(inner: Box<dyn Contract<Empty>>, ctl: &Ctl) -> Box<dyn Contract<Empty>> {
+    Box::new(FaultWrap { inner, ctl: ctl.clone() })
+}
+
+/// BankKeeper whose sends issued by contracts ("contractN" senders) are subject to the FaultCtl
+pub struct FaultBank {
+    pub inner: BankKeeper,
+    ctl: Ctl,
+}
+impl Module for FaultBank {
+    type ExecT = BankMsg;
+    type QueryT = BankQuery;
+    type SudoT = BankSudo;
+    fn execute<ExecC, QueryC>(
+        &self,
+        api: &dyn Api,
+        storage: &mut dyn Storage,
+        router: &dyn CosmosRouter<ExecC = ExecC, QueryC = QueryC>,
+        block: &BlockInfo,
+        sender: Addr,
+        msg: BankMsg,
+    ) -> anyhow::Result<AppResponse>
+    where
+        ExecC: std::fmt::Debug + Clone + PartialEq + JsonSchema + DeserializeOwned + 'static,
+        QueryC: CustomQuery + DeserializeOwned + 'static,
+    {
+        if sender.as_str().starts_with("contract") && self.ctl.lock().unwrap().hit() {
+            anyhow::bail!("injected fault");
+        }
+        self.inner.execute(api, storage, router, block, sender, msg)
+    }
+    fn sudo<ExecC, QueryC>(
+        &self,
+        api: &dyn Api,
+        storage: &mut dyn Storage,
+        router: &dyn CosmosRouter<ExecC = ExecC, QueryC = QueryC>,
+        block: &BlockInfo,
+        msg: BankSudo,
+    ) -> anyhow::Result<AppResponse>
+    where
+        ExecC: std::fmt::Debug + Clone + PartialEq + JsonSchema + DeserializeOwned + 'static,
+        QueryC: CustomQuery + DeserializeOwned + 'static,
+    {
+        self.inner.sudo(api, storage, router, block, msg)
+    }
+    fn query(&self, api: &dyn Api, storage: &dyn Storage, querier: &dyn Querier, block: &BlockInfo, request: BankQuery) -> anyhow::Result<Binary> {
+        self.inner.query(api, storage, querier, block, request)
+    }
+}
+impl Bank for FaultBank {}
+
+/// the App type of every World (the fault machinery is inert unless armed)
+pub type WApp = App<FaultBank>;
 
 pub const START_HEIGHT: u64 = 12_345;
 pub const START_TIME: u64 = 1_571_797_419;
@@ -138,7 +248,8 @@ fn sign_mag(s: &str) -> (u8, String) {
 }
 
 pub struct World {
-    pub app: App,
+    pub app: WApp,
+    pub ctl: Ctl,
     pub cfg: Cfg,
     pub ids: HashMap<String, u64>,
     pub names: HashMap<u64, String>,
@@ -150,7 +261,7 @@ pub struct World {
     pub vamms: Vec<Addr>,
 }
 
-fn ex<T: Serialize + std::fmt::Debug>(app: &mut App, sender: &str, contract: &Addr, msg: &T) -> Result<AppResponse, String> {
+fn ex<T: Serialize + std::fmt::Debug>(app: &mut WApp, sender: &str, contract: &Addr, msg: &T) -> Result<AppResponse, String> {
     app.execute_contract(Addr::unchecked(sender), contract.clone(), msg, &[])
         .map_err(|e| format!("{}", e.root_cause()))
 }
@@ -170,10 +281,12 @@ impl World {
         let owner = Addr::unchecked("owner");
         let bank_amount = 1_000_000_000u128 * d;
         let native = cfg.native;
-        let mut app = App::new(|router, _, storage| {
+        let ctl: Ctl = Arc::new(Mutex::new(FaultCtl::default()));
+        let mut app: WApp = AppBuilder::new().with_bank(FaultBank { inner: BankKeeper::new(), ctl: ctl.clone() }).build(|router, _, storage| {
             if native {
                 router
                     .bank
+                    .inner
                     .init_balance(
                         storage,
                         &Addr::unchecked("bank"),
@@ -196,10 +309,10 @@ impl World {
             names.insert(id, a.to_string());
         };
 
-        let feepool_code = app.store_code(c_feepool());
+        let feepool_code = app.store_code(wrap(c_feepool(), &ctl));
         let engine_code = app.store_code(c_engine());
-        let vamm_code = app.store_code(c_vamm());
-        let ifund_code = app.store_code(c_ifund());
+        let vamm_code = app.store_code(wrap(c_vamm(), &ctl));
+        let ifund_code = app.store_code(wrap(c_ifund(), &ctl));
         let feed_code = if cfg.real_feed { app.store_code(c_feed_real()) } else { app.store_code(c_feed_mock()) };
 
         let feepool = app
@@ -210,7 +323,7 @@ impl World {
         let token = if native {
             None
         } else {
-            let code = app.store_code(c_cw20());
+            let code = app.store_code(wrap(c_cw20(), &ctl));
             let t = app
                 .instantiate_contract(
                     code,
@@ -342,7 +455,7 @@ impl World {
         ex(&mut app, "owner", &feepool, &fpool::ExecuteMsg::AddToken { token: collateral })?;
 
         // funds
-        let pay = |app: &mut App, to: &str, amount: u128| -> Result<(), String> {
+        let pay = |app: &mut WApp, to: &str, amount: u128| -> Result<(), String> {
             if amount == 0 {
                 return Ok(());
             }
@@ -382,7 +495,7 @@ impl World {
         }
 
         // oracle
-        let append = |app: &mut App| {
+        let append = |app: &mut WApp| {
             let ts = app.block_info().time.seconds();
             ex(
                 app,
@@ -400,7 +513,7 @@ impl World {
             append(&mut app)?;
         }
 
-        Ok(World { app, cfg: cfg.clone(), ids, names, engine, ifund: ifund_addr, feepool, feed: feed_addr, token, vamms })
+        Ok(World { app, ctl, cfg: cfg.clone(), ids, names, engine, ifund: ifund_addr, feepool, feed: feed_addr, token, vamms })
     }
 
     // ---------------------------------------------------------------- ids
@@ -723,7 +836,7 @@ impl World {
         s.push_str(&LEDGER_IDS.iter().map(|id| format!("{}:{}", id, self.balance_id(*id))).collect::<Vec<_>>().join(";"));
         if self.token.is_some() {
             s.push_str(" allow=");
-            s.push_str(&ALLOW_IDS.iter().map(|id| format!("{}:{}", id, self.allowance(&self.addr(*id)))).collect::<Vec<_>>().join(";"));
+            s.push_str(&LEDGER_IDS.iter().map(|id| format!("{}:{}", id, self.allowance(&self.addr(*id)))).collect::<Vec<_>>().join(";"));
         } else {
             s.push_str(" allow=none");
         }
